@@ -110,6 +110,8 @@ Proof.
     injection H as <- <-. unfold clean_ok.
     destruct ch; constructor; unfold clean_ok; cbn; try reflexivity; try (rewrite orb_true_r; reflexivity);
       try (rewrite orb_false_r; reflexivity); try (intros; discriminate); try lia; auto.
+    + intros C D. destruct (needs_reload k); [rewrite orb_true_r in D; discriminate|].
+      rewrite orb_false_r in D. rewrite (C D). reflexivity.
   - unfold do_delete in H. remember (mem (fkey k n) (files s)) as ex.
     injection H as <- <-. unfold clean_ok.
     destruct ex; constructor; unfold clean_ok; cbn; try reflexivity; try (rewrite orb_true_r; reflexivity);
@@ -263,7 +265,7 @@ Qed.
 
 Lemma step_exec e s o : exec e (forces_enable e o) s (log (snd (step e s o))) (fst (step e s o)).
 Proof.
-  destruct o as [r|rs|rs al|k n sk|k rs| | |mv rs|fl|rs dl|rs dl|k ns]; cbn [step].
+  destruct o as [r|rs|rs al|k n sk|k rs| | |mv rs|fl|rs dl|rs dl|k ns|eg nm vr| ]; cbn [step].
   - (* OAdd *)
     pose proof (do_write_exec e (forces_enable e (OAdd r)) (fk_of (r_kind r)) (r_name r) (r_ver r) s) as H1.
     destruct (do_write _ _ _ s) as [s1 l1]. cbn [fst snd] in H1.
@@ -298,6 +300,9 @@ Proof.
     apply finish_reload_exec. eapply exec_app; eassumption.
   - pose proof (do_deletes_exec e false (fk_of k) ns s) as H1. destruct (do_deletes (fk_of k) ns s) as [s1 l1]. cbn [fst snd] in *.
     apply finish_reload_exec. exact H1.
+  - pose proof (do_write_exec e false (if eg then FSecret else FLazy) nm vr s) as H1.
+    destruct (do_write _ nm vr s) as [s1 l1]. exact H1.
+  - apply finish_reload_exec. apply x_nil.
 Qed.
 
 Lemma run_exec e os : forall s w,
@@ -538,7 +543,7 @@ Theorem step_applied_and_failure : forall e s o,
   (existsb is_failed_reload (log x) = true <-> oerr x = EReloadFailed).
 Proof.
   intros e s o.
-  destruct o as [r|rs|rs al|k n sk|k rs| | |mv rs|fl|rs dl|rs dl|k ns]; cbn [step is_gate skips endp_pushes is_endp].
+  destruct o as [r|rs|rs al|k n sk|k rs| | |mv rs|fl|rs dl|rs dl|k ns|eg nm vr| ]; cbn [step is_gate skips endp_pushes is_endp].
   - (* OAdd *)
     destruct (do_write_wd (fk_of (r_kind r)) (r_name r) (r_ver r) s) as [A _].
     destruct (do_write _ _ _ s) as [s1 l1]. cbn in A.
@@ -601,6 +606,12 @@ Proof.
   - destruct (do_deletes_wd (fk_of k) ns s) as [A _]. destruct (do_deletes (fk_of k) ns s) as [s1 l1]. cbn in A.
     pose proof (tail_applied e false s1 l1 (plus e && false) (wd_wda _ A)) as H.
     destruct (finish_reload e false s1 l1) as [s' x]. destruct H as [H1 H2]. split; [intros; apply H1; assumption|exact H2].
+  - destruct (do_write_wd (if eg then FSecret else FLazy) nm vr s) as [A _].
+    destruct (do_write _ nm vr s) as [s1 l1]. cbn in A. split.
+    + intros _ _ _ H; discriminate.
+    + cbn. rewrite (wda_no_failed _ (wd_wda _ A)). split; discriminate.
+  - pose proof (tail_applied e false s [] (plus e && false) eq_refl) as H.
+    destruct (finish_reload e false s []) as [s' x]. destruct H as [H1 H2]. split; [intros; apply H1; assumption|exact H2].
 Qed.
 
 Theorem applied_when_enabled : forall e s o s' x,
